@@ -309,10 +309,21 @@ impl Unit {
         let (_, self_factor) = self.to_base_unit_representation();
         let (_, other_factor) = other.to_base_unit_representation();
 
-        if self_factor.to_f64() <= other_factor.to_f64() {
-            self
-        } else {
-            other
+        match self_factor.to_f64().partial_cmp(&other_factor.to_f64()) {
+            Some(std::cmp::Ordering::Less) => self,
+            Some(std::cmp::Ordering::Greater) => other,
+            _ => {
+                // Different units of the same size (e.g. kph and km/h, Gy and Sv): the choice
+                // must not depend on the order of the operands, so fall back to an (arbitrary,
+                // but fixed) order on the units themselves.
+                let key = |unit: &Self| {
+                    unit.canonicalized()
+                        .iter()
+                        .map(|f| (f.unit_id.name.clone(), f.prefix, f.exponent))
+                        .collect::<Vec<_>>()
+                };
+                if key(self) <= key(other) { self } else { other }
+            }
         }
     }
 
